@@ -88,6 +88,37 @@ fn h_hfs<const OPTS: u8, const MODULES: bool, const K: usize, const P1: usize, c
     assert!(refused(&n, mode, opts), "HFS look-alike with ignorable code points is refused");
     s.reach();
 }
+/// (3)/(4) protect_hfs with ONE ignorable code point that is fixed per harness (IG = index into the list of 16) at a fixed
+/// position P; the case of every letter is symbolic. With the code point's bytes concrete the UTF-8 decoder is cheap for CBMC,
+/// so all 16 code points can be covered (the symbolic-choice variant above does not finish).
+fn ignorable_const(k: u8) -> [u8; 3] {
+    match k {
+        0..=3 => [0xE2, 0x80, 0x8C + k],
+        4..=8 => [0xE2, 0x80, 0xAA + (k - 4)],
+        9..=14 => [0xE2, 0x81, 0xAA + (k - 9)],
+        _ => [0xEF, 0xBB, 0xBF],
+    }
+}
+fn h_hfs1<const OPTS: u8, const MODULES: bool, const SYMCASE: bool, const P: usize, const IG: u8, const N: usize, S: Src>(s: &mut S) {
+    let word: &[u8] = if MODULES { b".gitmodules" } else { b".git" };
+    let mut n = [0u8; N];
+    let mut w = 0; let mut j = 0;
+    while j <= word.len() {
+        if j == P { let ig = ignorable_const(IG); n[w] = ig[0]; n[w + 1] = ig[1]; n[w + 2] = ig[2]; w += 3; }
+        if j < word.len() {
+            let c = word[j];
+            // SYMCASE = false: lower case only (everything concrete, CBMC just executes); case-insensitivity itself is
+            // covered by the hfs_dotgit_k0 / dotgit_case harnesses
+            n[w] = if SYMCASE && c.is_ascii_alphabetic() && s.bool() { c ^ 0x20 } else { c };
+            w += 1;
+        }
+        j += 1;
+    }
+    assert!(w == N);
+    let mode = if MODULES { Some(Mode::Symlink) } else { None };
+    assert!(refused(&n, mode, opts_of(OPTS)), "HFS look-alike with an ignorable code point is refused");
+    s.reach();
+}
 /// (4) protect_ntfs, symlink: `.gitmodules` (any case) + trailing {' ','.'}* [+ ':' + bytes]
 fn h_ntfs_modules<const OPTS: u8, const T: usize, const STREAM: bool, const S_: usize, const N: usize, S: Src>(s: &mut S) {
     let mut n = [0u8; N];
@@ -269,6 +300,118 @@ harnesses! {
     #[kani::proof] #[kani::unwind(30)] #[kani::stub(std::arch::x86_64::__cpuid_count, no_cpuid)] #[kani::stub(std::arch::x86_64::__cpuid, no_cpuid1)] hfs_modules_k1_p9_o2 => h_hfs::<2, true, 1, 9, 0, 14, _>;
     #[kani::proof] #[kani::unwind(30)] #[kani::stub(std::arch::x86_64::__cpuid_count, no_cpuid)] #[kani::stub(std::arch::x86_64::__cpuid, no_cpuid1)] hfs_modules_k1_p10_o2 => h_hfs::<2, true, 1, 10, 0, 14, _>;
     #[kani::proof] #[kani::unwind(30)] #[kani::stub(std::arch::x86_64::__cpuid_count, no_cpuid)] #[kani::stub(std::arch::x86_64::__cpuid, no_cpuid1)] hfs_modules_k1_p11_o2 => h_hfs::<2, true, 1, 11, 0, 14, _>;
+    #[kani::proof] #[kani::unwind(20)] #[kani::stub(std::arch::x86_64::__cpuid_count, no_cpuid)] #[kani::stub(std::arch::x86_64::__cpuid, no_cpuid1)] hfs1_dotgit_lc_ig0_p0_o2 => h_hfs1::<2, false, false, 0, 0, 7, _>;
+    #[kani::proof] #[kani::unwind(20)] #[kani::stub(std::arch::x86_64::__cpuid_count, no_cpuid)] #[kani::stub(std::arch::x86_64::__cpuid, no_cpuid1)] hfs1_dotgit_lc_ig0_p1_o2 => h_hfs1::<2, false, false, 1, 0, 7, _>;
+    #[kani::proof] #[kani::unwind(20)] #[kani::stub(std::arch::x86_64::__cpuid_count, no_cpuid)] #[kani::stub(std::arch::x86_64::__cpuid, no_cpuid1)] hfs1_dotgit_lc_ig0_p2_o2 => h_hfs1::<2, false, false, 2, 0, 7, _>;
+    #[kani::proof] #[kani::unwind(20)] #[kani::stub(std::arch::x86_64::__cpuid_count, no_cpuid)] #[kani::stub(std::arch::x86_64::__cpuid, no_cpuid1)] hfs1_dotgit_lc_ig0_p3_o2 => h_hfs1::<2, false, false, 3, 0, 7, _>;
+    #[kani::proof] #[kani::unwind(20)] #[kani::stub(std::arch::x86_64::__cpuid_count, no_cpuid)] #[kani::stub(std::arch::x86_64::__cpuid, no_cpuid1)] hfs1_dotgit_lc_ig0_p4_o2 => h_hfs1::<2, false, false, 4, 0, 7, _>;
+    #[kani::proof] #[kani::unwind(20)] #[kani::stub(std::arch::x86_64::__cpuid_count, no_cpuid)] #[kani::stub(std::arch::x86_64::__cpuid, no_cpuid1)] hfs1_dotgit_ig0_p2_o2 => h_hfs1::<2, false, true, 2, 0, 7, _>;
+    #[kani::proof] #[kani::unwind(30)] #[kani::stub(std::arch::x86_64::__cpuid_count, no_cpuid)] #[kani::stub(std::arch::x86_64::__cpuid, no_cpuid1)] hfs1_modules_lc_ig0_p5_o2 => h_hfs1::<2, true, false, 5, 0, 14, _>;
+    #[kani::proof] #[kani::unwind(20)] #[kani::stub(std::arch::x86_64::__cpuid_count, no_cpuid)] #[kani::stub(std::arch::x86_64::__cpuid, no_cpuid1)] hfs1_dotgit_lc_ig1_p0_o2 => h_hfs1::<2, false, false, 0, 1, 7, _>;
+    #[kani::proof] #[kani::unwind(20)] #[kani::stub(std::arch::x86_64::__cpuid_count, no_cpuid)] #[kani::stub(std::arch::x86_64::__cpuid, no_cpuid1)] hfs1_dotgit_lc_ig1_p1_o2 => h_hfs1::<2, false, false, 1, 1, 7, _>;
+    #[kani::proof] #[kani::unwind(20)] #[kani::stub(std::arch::x86_64::__cpuid_count, no_cpuid)] #[kani::stub(std::arch::x86_64::__cpuid, no_cpuid1)] hfs1_dotgit_lc_ig1_p2_o2 => h_hfs1::<2, false, false, 2, 1, 7, _>;
+    #[kani::proof] #[kani::unwind(20)] #[kani::stub(std::arch::x86_64::__cpuid_count, no_cpuid)] #[kani::stub(std::arch::x86_64::__cpuid, no_cpuid1)] hfs1_dotgit_lc_ig1_p3_o2 => h_hfs1::<2, false, false, 3, 1, 7, _>;
+    #[kani::proof] #[kani::unwind(20)] #[kani::stub(std::arch::x86_64::__cpuid_count, no_cpuid)] #[kani::stub(std::arch::x86_64::__cpuid, no_cpuid1)] hfs1_dotgit_lc_ig1_p4_o2 => h_hfs1::<2, false, false, 4, 1, 7, _>;
+    #[kani::proof] #[kani::unwind(20)] #[kani::stub(std::arch::x86_64::__cpuid_count, no_cpuid)] #[kani::stub(std::arch::x86_64::__cpuid, no_cpuid1)] hfs1_dotgit_ig1_p2_o2 => h_hfs1::<2, false, true, 2, 1, 7, _>;
+    #[kani::proof] #[kani::unwind(30)] #[kani::stub(std::arch::x86_64::__cpuid_count, no_cpuid)] #[kani::stub(std::arch::x86_64::__cpuid, no_cpuid1)] hfs1_modules_lc_ig1_p5_o2 => h_hfs1::<2, true, false, 5, 1, 14, _>;
+    #[kani::proof] #[kani::unwind(20)] #[kani::stub(std::arch::x86_64::__cpuid_count, no_cpuid)] #[kani::stub(std::arch::x86_64::__cpuid, no_cpuid1)] hfs1_dotgit_lc_ig2_p0_o2 => h_hfs1::<2, false, false, 0, 2, 7, _>;
+    #[kani::proof] #[kani::unwind(20)] #[kani::stub(std::arch::x86_64::__cpuid_count, no_cpuid)] #[kani::stub(std::arch::x86_64::__cpuid, no_cpuid1)] hfs1_dotgit_lc_ig2_p1_o2 => h_hfs1::<2, false, false, 1, 2, 7, _>;
+    #[kani::proof] #[kani::unwind(20)] #[kani::stub(std::arch::x86_64::__cpuid_count, no_cpuid)] #[kani::stub(std::arch::x86_64::__cpuid, no_cpuid1)] hfs1_dotgit_lc_ig2_p2_o2 => h_hfs1::<2, false, false, 2, 2, 7, _>;
+    #[kani::proof] #[kani::unwind(20)] #[kani::stub(std::arch::x86_64::__cpuid_count, no_cpuid)] #[kani::stub(std::arch::x86_64::__cpuid, no_cpuid1)] hfs1_dotgit_lc_ig2_p3_o2 => h_hfs1::<2, false, false, 3, 2, 7, _>;
+    #[kani::proof] #[kani::unwind(20)] #[kani::stub(std::arch::x86_64::__cpuid_count, no_cpuid)] #[kani::stub(std::arch::x86_64::__cpuid, no_cpuid1)] hfs1_dotgit_lc_ig2_p4_o2 => h_hfs1::<2, false, false, 4, 2, 7, _>;
+    #[kani::proof] #[kani::unwind(20)] #[kani::stub(std::arch::x86_64::__cpuid_count, no_cpuid)] #[kani::stub(std::arch::x86_64::__cpuid, no_cpuid1)] hfs1_dotgit_ig2_p2_o2 => h_hfs1::<2, false, true, 2, 2, 7, _>;
+    #[kani::proof] #[kani::unwind(30)] #[kani::stub(std::arch::x86_64::__cpuid_count, no_cpuid)] #[kani::stub(std::arch::x86_64::__cpuid, no_cpuid1)] hfs1_modules_lc_ig2_p5_o2 => h_hfs1::<2, true, false, 5, 2, 14, _>;
+    #[kani::proof] #[kani::unwind(20)] #[kani::stub(std::arch::x86_64::__cpuid_count, no_cpuid)] #[kani::stub(std::arch::x86_64::__cpuid, no_cpuid1)] hfs1_dotgit_lc_ig3_p0_o2 => h_hfs1::<2, false, false, 0, 3, 7, _>;
+    #[kani::proof] #[kani::unwind(20)] #[kani::stub(std::arch::x86_64::__cpuid_count, no_cpuid)] #[kani::stub(std::arch::x86_64::__cpuid, no_cpuid1)] hfs1_dotgit_lc_ig3_p1_o2 => h_hfs1::<2, false, false, 1, 3, 7, _>;
+    #[kani::proof] #[kani::unwind(20)] #[kani::stub(std::arch::x86_64::__cpuid_count, no_cpuid)] #[kani::stub(std::arch::x86_64::__cpuid, no_cpuid1)] hfs1_dotgit_lc_ig3_p2_o2 => h_hfs1::<2, false, false, 2, 3, 7, _>;
+    #[kani::proof] #[kani::unwind(20)] #[kani::stub(std::arch::x86_64::__cpuid_count, no_cpuid)] #[kani::stub(std::arch::x86_64::__cpuid, no_cpuid1)] hfs1_dotgit_lc_ig3_p3_o2 => h_hfs1::<2, false, false, 3, 3, 7, _>;
+    #[kani::proof] #[kani::unwind(20)] #[kani::stub(std::arch::x86_64::__cpuid_count, no_cpuid)] #[kani::stub(std::arch::x86_64::__cpuid, no_cpuid1)] hfs1_dotgit_lc_ig3_p4_o2 => h_hfs1::<2, false, false, 4, 3, 7, _>;
+    #[kani::proof] #[kani::unwind(20)] #[kani::stub(std::arch::x86_64::__cpuid_count, no_cpuid)] #[kani::stub(std::arch::x86_64::__cpuid, no_cpuid1)] hfs1_dotgit_ig3_p2_o2 => h_hfs1::<2, false, true, 2, 3, 7, _>;
+    #[kani::proof] #[kani::unwind(30)] #[kani::stub(std::arch::x86_64::__cpuid_count, no_cpuid)] #[kani::stub(std::arch::x86_64::__cpuid, no_cpuid1)] hfs1_modules_lc_ig3_p5_o2 => h_hfs1::<2, true, false, 5, 3, 14, _>;
+    #[kani::proof] #[kani::unwind(20)] #[kani::stub(std::arch::x86_64::__cpuid_count, no_cpuid)] #[kani::stub(std::arch::x86_64::__cpuid, no_cpuid1)] hfs1_dotgit_lc_ig4_p0_o2 => h_hfs1::<2, false, false, 0, 4, 7, _>;
+    #[kani::proof] #[kani::unwind(20)] #[kani::stub(std::arch::x86_64::__cpuid_count, no_cpuid)] #[kani::stub(std::arch::x86_64::__cpuid, no_cpuid1)] hfs1_dotgit_lc_ig4_p1_o2 => h_hfs1::<2, false, false, 1, 4, 7, _>;
+    #[kani::proof] #[kani::unwind(20)] #[kani::stub(std::arch::x86_64::__cpuid_count, no_cpuid)] #[kani::stub(std::arch::x86_64::__cpuid, no_cpuid1)] hfs1_dotgit_lc_ig4_p2_o2 => h_hfs1::<2, false, false, 2, 4, 7, _>;
+    #[kani::proof] #[kani::unwind(20)] #[kani::stub(std::arch::x86_64::__cpuid_count, no_cpuid)] #[kani::stub(std::arch::x86_64::__cpuid, no_cpuid1)] hfs1_dotgit_lc_ig4_p3_o2 => h_hfs1::<2, false, false, 3, 4, 7, _>;
+    #[kani::proof] #[kani::unwind(20)] #[kani::stub(std::arch::x86_64::__cpuid_count, no_cpuid)] #[kani::stub(std::arch::x86_64::__cpuid, no_cpuid1)] hfs1_dotgit_lc_ig4_p4_o2 => h_hfs1::<2, false, false, 4, 4, 7, _>;
+    #[kani::proof] #[kani::unwind(20)] #[kani::stub(std::arch::x86_64::__cpuid_count, no_cpuid)] #[kani::stub(std::arch::x86_64::__cpuid, no_cpuid1)] hfs1_dotgit_ig4_p2_o2 => h_hfs1::<2, false, true, 2, 4, 7, _>;
+    #[kani::proof] #[kani::unwind(30)] #[kani::stub(std::arch::x86_64::__cpuid_count, no_cpuid)] #[kani::stub(std::arch::x86_64::__cpuid, no_cpuid1)] hfs1_modules_lc_ig4_p5_o2 => h_hfs1::<2, true, false, 5, 4, 14, _>;
+    #[kani::proof] #[kani::unwind(20)] #[kani::stub(std::arch::x86_64::__cpuid_count, no_cpuid)] #[kani::stub(std::arch::x86_64::__cpuid, no_cpuid1)] hfs1_dotgit_lc_ig5_p0_o2 => h_hfs1::<2, false, false, 0, 5, 7, _>;
+    #[kani::proof] #[kani::unwind(20)] #[kani::stub(std::arch::x86_64::__cpuid_count, no_cpuid)] #[kani::stub(std::arch::x86_64::__cpuid, no_cpuid1)] hfs1_dotgit_lc_ig5_p1_o2 => h_hfs1::<2, false, false, 1, 5, 7, _>;
+    #[kani::proof] #[kani::unwind(20)] #[kani::stub(std::arch::x86_64::__cpuid_count, no_cpuid)] #[kani::stub(std::arch::x86_64::__cpuid, no_cpuid1)] hfs1_dotgit_lc_ig5_p2_o2 => h_hfs1::<2, false, false, 2, 5, 7, _>;
+    #[kani::proof] #[kani::unwind(20)] #[kani::stub(std::arch::x86_64::__cpuid_count, no_cpuid)] #[kani::stub(std::arch::x86_64::__cpuid, no_cpuid1)] hfs1_dotgit_lc_ig5_p3_o2 => h_hfs1::<2, false, false, 3, 5, 7, _>;
+    #[kani::proof] #[kani::unwind(20)] #[kani::stub(std::arch::x86_64::__cpuid_count, no_cpuid)] #[kani::stub(std::arch::x86_64::__cpuid, no_cpuid1)] hfs1_dotgit_lc_ig5_p4_o2 => h_hfs1::<2, false, false, 4, 5, 7, _>;
+    #[kani::proof] #[kani::unwind(20)] #[kani::stub(std::arch::x86_64::__cpuid_count, no_cpuid)] #[kani::stub(std::arch::x86_64::__cpuid, no_cpuid1)] hfs1_dotgit_ig5_p2_o2 => h_hfs1::<2, false, true, 2, 5, 7, _>;
+    #[kani::proof] #[kani::unwind(30)] #[kani::stub(std::arch::x86_64::__cpuid_count, no_cpuid)] #[kani::stub(std::arch::x86_64::__cpuid, no_cpuid1)] hfs1_modules_lc_ig5_p5_o2 => h_hfs1::<2, true, false, 5, 5, 14, _>;
+    #[kani::proof] #[kani::unwind(20)] #[kani::stub(std::arch::x86_64::__cpuid_count, no_cpuid)] #[kani::stub(std::arch::x86_64::__cpuid, no_cpuid1)] hfs1_dotgit_lc_ig6_p0_o2 => h_hfs1::<2, false, false, 0, 6, 7, _>;
+    #[kani::proof] #[kani::unwind(20)] #[kani::stub(std::arch::x86_64::__cpuid_count, no_cpuid)] #[kani::stub(std::arch::x86_64::__cpuid, no_cpuid1)] hfs1_dotgit_lc_ig6_p1_o2 => h_hfs1::<2, false, false, 1, 6, 7, _>;
+    #[kani::proof] #[kani::unwind(20)] #[kani::stub(std::arch::x86_64::__cpuid_count, no_cpuid)] #[kani::stub(std::arch::x86_64::__cpuid, no_cpuid1)] hfs1_dotgit_lc_ig6_p2_o2 => h_hfs1::<2, false, false, 2, 6, 7, _>;
+    #[kani::proof] #[kani::unwind(20)] #[kani::stub(std::arch::x86_64::__cpuid_count, no_cpuid)] #[kani::stub(std::arch::x86_64::__cpuid, no_cpuid1)] hfs1_dotgit_lc_ig6_p3_o2 => h_hfs1::<2, false, false, 3, 6, 7, _>;
+    #[kani::proof] #[kani::unwind(20)] #[kani::stub(std::arch::x86_64::__cpuid_count, no_cpuid)] #[kani::stub(std::arch::x86_64::__cpuid, no_cpuid1)] hfs1_dotgit_lc_ig6_p4_o2 => h_hfs1::<2, false, false, 4, 6, 7, _>;
+    #[kani::proof] #[kani::unwind(20)] #[kani::stub(std::arch::x86_64::__cpuid_count, no_cpuid)] #[kani::stub(std::arch::x86_64::__cpuid, no_cpuid1)] hfs1_dotgit_ig6_p2_o2 => h_hfs1::<2, false, true, 2, 6, 7, _>;
+    #[kani::proof] #[kani::unwind(30)] #[kani::stub(std::arch::x86_64::__cpuid_count, no_cpuid)] #[kani::stub(std::arch::x86_64::__cpuid, no_cpuid1)] hfs1_modules_lc_ig6_p5_o2 => h_hfs1::<2, true, false, 5, 6, 14, _>;
+    #[kani::proof] #[kani::unwind(20)] #[kani::stub(std::arch::x86_64::__cpuid_count, no_cpuid)] #[kani::stub(std::arch::x86_64::__cpuid, no_cpuid1)] hfs1_dotgit_lc_ig7_p0_o2 => h_hfs1::<2, false, false, 0, 7, 7, _>;
+    #[kani::proof] #[kani::unwind(20)] #[kani::stub(std::arch::x86_64::__cpuid_count, no_cpuid)] #[kani::stub(std::arch::x86_64::__cpuid, no_cpuid1)] hfs1_dotgit_lc_ig7_p1_o2 => h_hfs1::<2, false, false, 1, 7, 7, _>;
+    #[kani::proof] #[kani::unwind(20)] #[kani::stub(std::arch::x86_64::__cpuid_count, no_cpuid)] #[kani::stub(std::arch::x86_64::__cpuid, no_cpuid1)] hfs1_dotgit_lc_ig7_p2_o2 => h_hfs1::<2, false, false, 2, 7, 7, _>;
+    #[kani::proof] #[kani::unwind(20)] #[kani::stub(std::arch::x86_64::__cpuid_count, no_cpuid)] #[kani::stub(std::arch::x86_64::__cpuid, no_cpuid1)] hfs1_dotgit_lc_ig7_p3_o2 => h_hfs1::<2, false, false, 3, 7, 7, _>;
+    #[kani::proof] #[kani::unwind(20)] #[kani::stub(std::arch::x86_64::__cpuid_count, no_cpuid)] #[kani::stub(std::arch::x86_64::__cpuid, no_cpuid1)] hfs1_dotgit_lc_ig7_p4_o2 => h_hfs1::<2, false, false, 4, 7, 7, _>;
+    #[kani::proof] #[kani::unwind(20)] #[kani::stub(std::arch::x86_64::__cpuid_count, no_cpuid)] #[kani::stub(std::arch::x86_64::__cpuid, no_cpuid1)] hfs1_dotgit_ig7_p2_o2 => h_hfs1::<2, false, true, 2, 7, 7, _>;
+    #[kani::proof] #[kani::unwind(30)] #[kani::stub(std::arch::x86_64::__cpuid_count, no_cpuid)] #[kani::stub(std::arch::x86_64::__cpuid, no_cpuid1)] hfs1_modules_lc_ig7_p5_o2 => h_hfs1::<2, true, false, 5, 7, 14, _>;
+    #[kani::proof] #[kani::unwind(20)] #[kani::stub(std::arch::x86_64::__cpuid_count, no_cpuid)] #[kani::stub(std::arch::x86_64::__cpuid, no_cpuid1)] hfs1_dotgit_lc_ig8_p0_o2 => h_hfs1::<2, false, false, 0, 8, 7, _>;
+    #[kani::proof] #[kani::unwind(20)] #[kani::stub(std::arch::x86_64::__cpuid_count, no_cpuid)] #[kani::stub(std::arch::x86_64::__cpuid, no_cpuid1)] hfs1_dotgit_lc_ig8_p1_o2 => h_hfs1::<2, false, false, 1, 8, 7, _>;
+    #[kani::proof] #[kani::unwind(20)] #[kani::stub(std::arch::x86_64::__cpuid_count, no_cpuid)] #[kani::stub(std::arch::x86_64::__cpuid, no_cpuid1)] hfs1_dotgit_lc_ig8_p2_o2 => h_hfs1::<2, false, false, 2, 8, 7, _>;
+    #[kani::proof] #[kani::unwind(20)] #[kani::stub(std::arch::x86_64::__cpuid_count, no_cpuid)] #[kani::stub(std::arch::x86_64::__cpuid, no_cpuid1)] hfs1_dotgit_lc_ig8_p3_o2 => h_hfs1::<2, false, false, 3, 8, 7, _>;
+    #[kani::proof] #[kani::unwind(20)] #[kani::stub(std::arch::x86_64::__cpuid_count, no_cpuid)] #[kani::stub(std::arch::x86_64::__cpuid, no_cpuid1)] hfs1_dotgit_lc_ig8_p4_o2 => h_hfs1::<2, false, false, 4, 8, 7, _>;
+    #[kani::proof] #[kani::unwind(20)] #[kani::stub(std::arch::x86_64::__cpuid_count, no_cpuid)] #[kani::stub(std::arch::x86_64::__cpuid, no_cpuid1)] hfs1_dotgit_ig8_p2_o2 => h_hfs1::<2, false, true, 2, 8, 7, _>;
+    #[kani::proof] #[kani::unwind(30)] #[kani::stub(std::arch::x86_64::__cpuid_count, no_cpuid)] #[kani::stub(std::arch::x86_64::__cpuid, no_cpuid1)] hfs1_modules_lc_ig8_p5_o2 => h_hfs1::<2, true, false, 5, 8, 14, _>;
+    #[kani::proof] #[kani::unwind(20)] #[kani::stub(std::arch::x86_64::__cpuid_count, no_cpuid)] #[kani::stub(std::arch::x86_64::__cpuid, no_cpuid1)] hfs1_dotgit_lc_ig9_p0_o2 => h_hfs1::<2, false, false, 0, 9, 7, _>;
+    #[kani::proof] #[kani::unwind(20)] #[kani::stub(std::arch::x86_64::__cpuid_count, no_cpuid)] #[kani::stub(std::arch::x86_64::__cpuid, no_cpuid1)] hfs1_dotgit_lc_ig9_p1_o2 => h_hfs1::<2, false, false, 1, 9, 7, _>;
+    #[kani::proof] #[kani::unwind(20)] #[kani::stub(std::arch::x86_64::__cpuid_count, no_cpuid)] #[kani::stub(std::arch::x86_64::__cpuid, no_cpuid1)] hfs1_dotgit_lc_ig9_p2_o2 => h_hfs1::<2, false, false, 2, 9, 7, _>;
+    #[kani::proof] #[kani::unwind(20)] #[kani::stub(std::arch::x86_64::__cpuid_count, no_cpuid)] #[kani::stub(std::arch::x86_64::__cpuid, no_cpuid1)] hfs1_dotgit_lc_ig9_p3_o2 => h_hfs1::<2, false, false, 3, 9, 7, _>;
+    #[kani::proof] #[kani::unwind(20)] #[kani::stub(std::arch::x86_64::__cpuid_count, no_cpuid)] #[kani::stub(std::arch::x86_64::__cpuid, no_cpuid1)] hfs1_dotgit_lc_ig9_p4_o2 => h_hfs1::<2, false, false, 4, 9, 7, _>;
+    #[kani::proof] #[kani::unwind(20)] #[kani::stub(std::arch::x86_64::__cpuid_count, no_cpuid)] #[kani::stub(std::arch::x86_64::__cpuid, no_cpuid1)] hfs1_dotgit_ig9_p2_o2 => h_hfs1::<2, false, true, 2, 9, 7, _>;
+    #[kani::proof] #[kani::unwind(30)] #[kani::stub(std::arch::x86_64::__cpuid_count, no_cpuid)] #[kani::stub(std::arch::x86_64::__cpuid, no_cpuid1)] hfs1_modules_lc_ig9_p5_o2 => h_hfs1::<2, true, false, 5, 9, 14, _>;
+    #[kani::proof] #[kani::unwind(20)] #[kani::stub(std::arch::x86_64::__cpuid_count, no_cpuid)] #[kani::stub(std::arch::x86_64::__cpuid, no_cpuid1)] hfs1_dotgit_lc_ig10_p0_o2 => h_hfs1::<2, false, false, 0, 10, 7, _>;
+    #[kani::proof] #[kani::unwind(20)] #[kani::stub(std::arch::x86_64::__cpuid_count, no_cpuid)] #[kani::stub(std::arch::x86_64::__cpuid, no_cpuid1)] hfs1_dotgit_lc_ig10_p1_o2 => h_hfs1::<2, false, false, 1, 10, 7, _>;
+    #[kani::proof] #[kani::unwind(20)] #[kani::stub(std::arch::x86_64::__cpuid_count, no_cpuid)] #[kani::stub(std::arch::x86_64::__cpuid, no_cpuid1)] hfs1_dotgit_lc_ig10_p2_o2 => h_hfs1::<2, false, false, 2, 10, 7, _>;
+    #[kani::proof] #[kani::unwind(20)] #[kani::stub(std::arch::x86_64::__cpuid_count, no_cpuid)] #[kani::stub(std::arch::x86_64::__cpuid, no_cpuid1)] hfs1_dotgit_lc_ig10_p3_o2 => h_hfs1::<2, false, false, 3, 10, 7, _>;
+    #[kani::proof] #[kani::unwind(20)] #[kani::stub(std::arch::x86_64::__cpuid_count, no_cpuid)] #[kani::stub(std::arch::x86_64::__cpuid, no_cpuid1)] hfs1_dotgit_lc_ig10_p4_o2 => h_hfs1::<2, false, false, 4, 10, 7, _>;
+    #[kani::proof] #[kani::unwind(20)] #[kani::stub(std::arch::x86_64::__cpuid_count, no_cpuid)] #[kani::stub(std::arch::x86_64::__cpuid, no_cpuid1)] hfs1_dotgit_ig10_p2_o2 => h_hfs1::<2, false, true, 2, 10, 7, _>;
+    #[kani::proof] #[kani::unwind(30)] #[kani::stub(std::arch::x86_64::__cpuid_count, no_cpuid)] #[kani::stub(std::arch::x86_64::__cpuid, no_cpuid1)] hfs1_modules_lc_ig10_p5_o2 => h_hfs1::<2, true, false, 5, 10, 14, _>;
+    #[kani::proof] #[kani::unwind(20)] #[kani::stub(std::arch::x86_64::__cpuid_count, no_cpuid)] #[kani::stub(std::arch::x86_64::__cpuid, no_cpuid1)] hfs1_dotgit_lc_ig11_p0_o2 => h_hfs1::<2, false, false, 0, 11, 7, _>;
+    #[kani::proof] #[kani::unwind(20)] #[kani::stub(std::arch::x86_64::__cpuid_count, no_cpuid)] #[kani::stub(std::arch::x86_64::__cpuid, no_cpuid1)] hfs1_dotgit_lc_ig11_p1_o2 => h_hfs1::<2, false, false, 1, 11, 7, _>;
+    #[kani::proof] #[kani::unwind(20)] #[kani::stub(std::arch::x86_64::__cpuid_count, no_cpuid)] #[kani::stub(std::arch::x86_64::__cpuid, no_cpuid1)] hfs1_dotgit_lc_ig11_p2_o2 => h_hfs1::<2, false, false, 2, 11, 7, _>;
+    #[kani::proof] #[kani::unwind(20)] #[kani::stub(std::arch::x86_64::__cpuid_count, no_cpuid)] #[kani::stub(std::arch::x86_64::__cpuid, no_cpuid1)] hfs1_dotgit_lc_ig11_p3_o2 => h_hfs1::<2, false, false, 3, 11, 7, _>;
+    #[kani::proof] #[kani::unwind(20)] #[kani::stub(std::arch::x86_64::__cpuid_count, no_cpuid)] #[kani::stub(std::arch::x86_64::__cpuid, no_cpuid1)] hfs1_dotgit_lc_ig11_p4_o2 => h_hfs1::<2, false, false, 4, 11, 7, _>;
+    #[kani::proof] #[kani::unwind(20)] #[kani::stub(std::arch::x86_64::__cpuid_count, no_cpuid)] #[kani::stub(std::arch::x86_64::__cpuid, no_cpuid1)] hfs1_dotgit_ig11_p2_o2 => h_hfs1::<2, false, true, 2, 11, 7, _>;
+    #[kani::proof] #[kani::unwind(30)] #[kani::stub(std::arch::x86_64::__cpuid_count, no_cpuid)] #[kani::stub(std::arch::x86_64::__cpuid, no_cpuid1)] hfs1_modules_lc_ig11_p5_o2 => h_hfs1::<2, true, false, 5, 11, 14, _>;
+    #[kani::proof] #[kani::unwind(20)] #[kani::stub(std::arch::x86_64::__cpuid_count, no_cpuid)] #[kani::stub(std::arch::x86_64::__cpuid, no_cpuid1)] hfs1_dotgit_lc_ig12_p0_o2 => h_hfs1::<2, false, false, 0, 12, 7, _>;
+    #[kani::proof] #[kani::unwind(20)] #[kani::stub(std::arch::x86_64::__cpuid_count, no_cpuid)] #[kani::stub(std::arch::x86_64::__cpuid, no_cpuid1)] hfs1_dotgit_lc_ig12_p1_o2 => h_hfs1::<2, false, false, 1, 12, 7, _>;
+    #[kani::proof] #[kani::unwind(20)] #[kani::stub(std::arch::x86_64::__cpuid_count, no_cpuid)] #[kani::stub(std::arch::x86_64::__cpuid, no_cpuid1)] hfs1_dotgit_lc_ig12_p2_o2 => h_hfs1::<2, false, false, 2, 12, 7, _>;
+    #[kani::proof] #[kani::unwind(20)] #[kani::stub(std::arch::x86_64::__cpuid_count, no_cpuid)] #[kani::stub(std::arch::x86_64::__cpuid, no_cpuid1)] hfs1_dotgit_lc_ig12_p3_o2 => h_hfs1::<2, false, false, 3, 12, 7, _>;
+    #[kani::proof] #[kani::unwind(20)] #[kani::stub(std::arch::x86_64::__cpuid_count, no_cpuid)] #[kani::stub(std::arch::x86_64::__cpuid, no_cpuid1)] hfs1_dotgit_lc_ig12_p4_o2 => h_hfs1::<2, false, false, 4, 12, 7, _>;
+    #[kani::proof] #[kani::unwind(20)] #[kani::stub(std::arch::x86_64::__cpuid_count, no_cpuid)] #[kani::stub(std::arch::x86_64::__cpuid, no_cpuid1)] hfs1_dotgit_ig12_p2_o2 => h_hfs1::<2, false, true, 2, 12, 7, _>;
+    #[kani::proof] #[kani::unwind(30)] #[kani::stub(std::arch::x86_64::__cpuid_count, no_cpuid)] #[kani::stub(std::arch::x86_64::__cpuid, no_cpuid1)] hfs1_modules_lc_ig12_p5_o2 => h_hfs1::<2, true, false, 5, 12, 14, _>;
+    #[kani::proof] #[kani::unwind(20)] #[kani::stub(std::arch::x86_64::__cpuid_count, no_cpuid)] #[kani::stub(std::arch::x86_64::__cpuid, no_cpuid1)] hfs1_dotgit_lc_ig13_p0_o2 => h_hfs1::<2, false, false, 0, 13, 7, _>;
+    #[kani::proof] #[kani::unwind(20)] #[kani::stub(std::arch::x86_64::__cpuid_count, no_cpuid)] #[kani::stub(std::arch::x86_64::__cpuid, no_cpuid1)] hfs1_dotgit_lc_ig13_p1_o2 => h_hfs1::<2, false, false, 1, 13, 7, _>;
+    #[kani::proof] #[kani::unwind(20)] #[kani::stub(std::arch::x86_64::__cpuid_count, no_cpuid)] #[kani::stub(std::arch::x86_64::__cpuid, no_cpuid1)] hfs1_dotgit_lc_ig13_p2_o2 => h_hfs1::<2, false, false, 2, 13, 7, _>;
+    #[kani::proof] #[kani::unwind(20)] #[kani::stub(std::arch::x86_64::__cpuid_count, no_cpuid)] #[kani::stub(std::arch::x86_64::__cpuid, no_cpuid1)] hfs1_dotgit_lc_ig13_p3_o2 => h_hfs1::<2, false, false, 3, 13, 7, _>;
+    #[kani::proof] #[kani::unwind(20)] #[kani::stub(std::arch::x86_64::__cpuid_count, no_cpuid)] #[kani::stub(std::arch::x86_64::__cpuid, no_cpuid1)] hfs1_dotgit_lc_ig13_p4_o2 => h_hfs1::<2, false, false, 4, 13, 7, _>;
+    #[kani::proof] #[kani::unwind(20)] #[kani::stub(std::arch::x86_64::__cpuid_count, no_cpuid)] #[kani::stub(std::arch::x86_64::__cpuid, no_cpuid1)] hfs1_dotgit_ig13_p2_o2 => h_hfs1::<2, false, true, 2, 13, 7, _>;
+    #[kani::proof] #[kani::unwind(30)] #[kani::stub(std::arch::x86_64::__cpuid_count, no_cpuid)] #[kani::stub(std::arch::x86_64::__cpuid, no_cpuid1)] hfs1_modules_lc_ig13_p5_o2 => h_hfs1::<2, true, false, 5, 13, 14, _>;
+    #[kani::proof] #[kani::unwind(20)] #[kani::stub(std::arch::x86_64::__cpuid_count, no_cpuid)] #[kani::stub(std::arch::x86_64::__cpuid, no_cpuid1)] hfs1_dotgit_lc_ig14_p0_o2 => h_hfs1::<2, false, false, 0, 14, 7, _>;
+    #[kani::proof] #[kani::unwind(20)] #[kani::stub(std::arch::x86_64::__cpuid_count, no_cpuid)] #[kani::stub(std::arch::x86_64::__cpuid, no_cpuid1)] hfs1_dotgit_lc_ig14_p1_o2 => h_hfs1::<2, false, false, 1, 14, 7, _>;
+    #[kani::proof] #[kani::unwind(20)] #[kani::stub(std::arch::x86_64::__cpuid_count, no_cpuid)] #[kani::stub(std::arch::x86_64::__cpuid, no_cpuid1)] hfs1_dotgit_lc_ig14_p2_o2 => h_hfs1::<2, false, false, 2, 14, 7, _>;
+    #[kani::proof] #[kani::unwind(20)] #[kani::stub(std::arch::x86_64::__cpuid_count, no_cpuid)] #[kani::stub(std::arch::x86_64::__cpuid, no_cpuid1)] hfs1_dotgit_lc_ig14_p3_o2 => h_hfs1::<2, false, false, 3, 14, 7, _>;
+    #[kani::proof] #[kani::unwind(20)] #[kani::stub(std::arch::x86_64::__cpuid_count, no_cpuid)] #[kani::stub(std::arch::x86_64::__cpuid, no_cpuid1)] hfs1_dotgit_lc_ig14_p4_o2 => h_hfs1::<2, false, false, 4, 14, 7, _>;
+    #[kani::proof] #[kani::unwind(20)] #[kani::stub(std::arch::x86_64::__cpuid_count, no_cpuid)] #[kani::stub(std::arch::x86_64::__cpuid, no_cpuid1)] hfs1_dotgit_ig14_p2_o2 => h_hfs1::<2, false, true, 2, 14, 7, _>;
+    #[kani::proof] #[kani::unwind(30)] #[kani::stub(std::arch::x86_64::__cpuid_count, no_cpuid)] #[kani::stub(std::arch::x86_64::__cpuid, no_cpuid1)] hfs1_modules_lc_ig14_p5_o2 => h_hfs1::<2, true, false, 5, 14, 14, _>;
+    #[kani::proof] #[kani::unwind(20)] #[kani::stub(std::arch::x86_64::__cpuid_count, no_cpuid)] #[kani::stub(std::arch::x86_64::__cpuid, no_cpuid1)] hfs1_dotgit_lc_ig15_p0_o2 => h_hfs1::<2, false, false, 0, 15, 7, _>;
+    #[kani::proof] #[kani::unwind(20)] #[kani::stub(std::arch::x86_64::__cpuid_count, no_cpuid)] #[kani::stub(std::arch::x86_64::__cpuid, no_cpuid1)] hfs1_dotgit_lc_ig15_p1_o2 => h_hfs1::<2, false, false, 1, 15, 7, _>;
+    #[kani::proof] #[kani::unwind(20)] #[kani::stub(std::arch::x86_64::__cpuid_count, no_cpuid)] #[kani::stub(std::arch::x86_64::__cpuid, no_cpuid1)] hfs1_dotgit_lc_ig15_p2_o2 => h_hfs1::<2, false, false, 2, 15, 7, _>;
+    #[kani::proof] #[kani::unwind(20)] #[kani::stub(std::arch::x86_64::__cpuid_count, no_cpuid)] #[kani::stub(std::arch::x86_64::__cpuid, no_cpuid1)] hfs1_dotgit_lc_ig15_p3_o2 => h_hfs1::<2, false, false, 3, 15, 7, _>;
+    #[kani::proof] #[kani::unwind(20)] #[kani::stub(std::arch::x86_64::__cpuid_count, no_cpuid)] #[kani::stub(std::arch::x86_64::__cpuid, no_cpuid1)] hfs1_dotgit_lc_ig15_p4_o2 => h_hfs1::<2, false, false, 4, 15, 7, _>;
+    #[kani::proof] #[kani::unwind(20)] #[kani::stub(std::arch::x86_64::__cpuid_count, no_cpuid)] #[kani::stub(std::arch::x86_64::__cpuid, no_cpuid1)] hfs1_dotgit_ig15_p2_o2 => h_hfs1::<2, false, true, 2, 15, 7, _>;
+    #[kani::proof] #[kani::unwind(30)] #[kani::stub(std::arch::x86_64::__cpuid_count, no_cpuid)] #[kani::stub(std::arch::x86_64::__cpuid, no_cpuid1)] hfs1_modules_lc_ig15_p5_o2 => h_hfs1::<2, true, false, 5, 15, 14, _>;
     #[kani::proof] #[kani::unwind(22)] #[kani::stub(std::arch::x86_64::__cpuid_count, no_cpuid)] #[kani::stub(std::arch::x86_64::__cpuid, no_cpuid1)] ntfs_modules_t0_o4 => h_ntfs_modules::<4, 0, false, 0, 11, _>;
     #[kani::proof] #[kani::unwind(22)] #[kani::stub(std::arch::x86_64::__cpuid_count, no_cpuid)] #[kani::stub(std::arch::x86_64::__cpuid, no_cpuid1)] ntfs_modules_t0_o7 => h_ntfs_modules::<7, 0, false, 0, 11, _>;
     #[kani::proof] #[kani::unwind(22)] #[kani::stub(std::arch::x86_64::__cpuid_count, no_cpuid)] #[kani::stub(std::arch::x86_64::__cpuid, no_cpuid1)] ntfs_modules_t2_o4 => h_ntfs_modules::<4, 2, false, 0, 13, _>;
